@@ -66,6 +66,12 @@ def source(info):
         'event.fire("pv_loaded", ctx=pyscript.get_global_ctx(), gen=%d)' % info["gen"],
         "pv_gen = %d" % info["gen"],
         "pv_cnt = 0",
+        # like real apps: fill in defaults in / write to the configuration object pyscript hands to the app
+        "try:",
+        '    pyscript.app_config.setdefault("pv_default", %d)' % info["gen"],
+        '    pyscript.app_config["pv_seen"] = %d' % info["gen"],
+        "except NameError:",
+        "    pass",
         '@event_trigger("pv_ping")',
         "def pv_ping_f(**kw):",
         "    global pv_cnt",
